@@ -93,6 +93,60 @@ func extract(a hx.ExtractArgs) error {
 		}
 		fmt.Fprintf(&b, "def compareBranch_%d : String × String × String := (%s, %s, %s)\n", len(names), hx.LeanString(kind), hx.LeanString(conv), hx.LeanString(onErr))
 	}
+	// DecimalType_.Compare, YearType_.Compare, BitType_.Compare (go/ast): the converter applied to both operands, what
+	// happens on a conversion error, and the (condition → result) ladder that follows
+	var shapes []string
+	for _, sp := range []struct{ file, recv string }{{"sql/types/decimal.go", "DecimalType_"}, {"sql/types/year.go", "YearType_"}, {"sql/types/bit.go", "BitType_"}} {
+		psrc, err := hx.ParseSrc(a.Repo, sp.file)
+		if err != nil {
+			return err
+		}
+		cfd, err := psrc.Func(sp.recv, "Compare")
+		if err != nil {
+			return err
+		}
+		var convs, onErrs, ladder []string
+		var walk func(n ast.Node) bool
+		walk = func(n ast.Node) bool {
+			switch x := n.(type) {
+			case *ast.CallExpr:
+				if sel, ok := x.Fun.(*ast.SelectorExpr); ok && strings.HasPrefix(sel.Sel.Name, "Convert") {
+					convs = append(convs, psrc.Text(x.Fun))
+				}
+			case *ast.IfStmt:
+				cond := strings.Join(strings.Fields(psrc.Text(x.Cond)), " ")
+				body := ""
+				if len(x.Body.List) == 1 {
+					body = strings.Join(strings.Fields(psrc.Text(x.Body.List[0])), " ")
+				}
+				if x.Init != nil { // `if hasNulls, res := CompareNulls(a, b); hasNulls`
+					cond = strings.Join(strings.Fields(psrc.Text(x.Init)), " ") + "; " + cond
+				}
+				if cond == "err != nil" {
+					onErrs = append(onErrs, body)
+				} else {
+					ladder = append(ladder, hx.LeanString("if "+cond+" => "+body))
+				}
+			case *ast.ReturnStmt:
+				// the final unconditional return of the function body
+			}
+			return true
+		}
+		ast.Inspect(cfd.Body, walk)
+		last := ""
+		if n := len(cfd.Body.List); n > 0 {
+			last = strings.Join(strings.Fields(psrc.Text(cfd.Body.List[n-1])), " ")
+		}
+		if len(convs) != 2 || len(onErrs) != 2 {
+			return fmt.Errorf("%s.Compare: expected two operand conversions with error checks, found %v / %v", sp.recv, convs, onErrs)
+		}
+		items := []string{hx.LeanString("a: " + convs[0] + " / on error: " + onErrs[0]), hx.LeanString("b: " + convs[1] + " / on error: " + onErrs[1])}
+		items = append(items, ladder...)
+		items = append(items, hx.LeanString(last))
+		shapes = append(shapes, fmt.Sprintf("(%s, [%s])", hx.LeanString(sp.recv), strings.Join(items, ", ")))
+	}
+	fmt.Fprintf(&b, "\n/-- `Compare` of DECIMAL, YEAR, BIT: (receiver, [conversion of a and its error branch, the same for b, the `if cond => statement` ladder in source order, last statement]) -/\n")
+	fmt.Fprintf(&b, "def compareShapes : List (String × List String) := [\n  %s]\n", strings.Join(shapes, ",\n  "))
 	b.WriteString("\nend Gms.Generated.C26\n")
 	return os.WriteFile(a.Out, []byte(b.String()), 0o644)
 }
